@@ -126,6 +126,15 @@ impl FileDesc {
             )));
         }
 
+        if (oti.fec_encoding_id == oti::FECEncodingID::ReedSolomonGF28
+            || oti.fec_encoding_id == oti::FECEncodingID::ReedSolomonGF28UnderSpecified)
+            && oti.max_number_of_parity_symbols == 0
+        {
+            return Err(FluteError::new(
+                "FEC Reed Solomon is selected, however the number of parity symbols is 0, no block can be encoded",
+            ));
+        }
+
         if oti.fec_encoding_id == oti::FECEncodingID::RaptorQ
             || oti.fec_encoding_id == oti::FECEncodingID::Raptor
         {
